@@ -73,7 +73,15 @@ type c08PayPlan struct {
 	CancelEarly     bool
 }
 
+// c08FlapPlan: both links of one channel are stopped and re-created from the
+// database while the switches keep running (peer disconnect / reconnect).
+type c08FlapPlan struct {
+	Phase, At int
+	Chan      int // 0: Alice<->Bob, 1: Bob<->Carol
+}
+
 type c08Plan struct {
+	Flaps     []c08FlapPlan
 	Seed      [32]byte
 	SideSat   int64
 	Pays      []c08PayPlan
@@ -97,6 +105,9 @@ func (p *c08Plan) String() string {
 	for _, c := range p.Cuts {
 		fmt.Fprintf(&b, "  cut phase=%d %s %s #%d both=%v\n", c.Phase,
 			c08EdgeNames[c.Edge], c08KindNames[c.Kind], c.Ord, c.Both)
+	}
+	for _, f := range p.Flaps {
+		fmt.Fprintf(&b, "  flap chan=%d at=(%d,%d)\n", f.Chan, f.Phase, f.At)
 	}
 
 	return b.String()
@@ -266,6 +277,36 @@ func c08DrawPlan(t *rapid.T) *c08Plan {
 		}
 	}
 
+	// Link flaps: any phase. With probability 1/2 a flap is preceded by a
+	// cut on the same channel (which it heals), so that cuts also occur
+	// in the last phase.
+	nFlap := rapid.SampledFrom([]int{0, 0, 0, 1, 1, 2}).Draw(t, "nFlap")
+	for i := 0; i < nFlap; i++ {
+		f := c08FlapPlan{
+			Phase: rapid.IntRange(0, p.Restarts).Draw(t, "flapPhase"),
+			Chan:  rapid.IntRange(0, 1).Draw(t, "flapChan"),
+			At: rapid.SampledFrom([]int{
+				2, 4, 6, 8, 10, 13, 16, 20, 26, 34,
+			}).Draw(t, "flapAt"),
+		}
+		p.Flaps = append(p.Flaps, f)
+		if rapid.Bool().Draw(t, "flapCut") {
+			c := &c08CutPlan{Phase: f.Phase}
+			c.Edge = c08Edge(2*f.Chan + rapid.IntRange(0, 1).Draw(
+				t, "flapCutDir",
+			))
+			c.Kind = rapid.SampledFrom([]c08Kind{
+				c08Add, c08Commit, c08Commit, c08Revoke, c08Revoke,
+				c08Fulfill, c08Fail,
+			}).Draw(t, "flapCutKind")
+			c.Ord = rapid.SampledFrom([]int{1, 1, 2, 3}).Draw(
+				t, "flapCutOrd",
+			)
+			c.Both = rapid.Bool().Draw(t, "flapCutBoth")
+			p.Cuts = append(p.Cuts, c)
+		}
+	}
+
 	return p
 }
 
@@ -346,6 +387,8 @@ type c08Run struct {
 	stuckIdle    time.Duration
 	nudgeIdle    time.Duration
 	nudges       int
+	flaps        int
+	flapHits     int
 
 	startBal [4]lnwire.MilliSatoshi // a2b, b2a, b2c, c2b local balances
 }
@@ -593,6 +636,102 @@ func (r *c08Run) launch(p *c08Pay) error {
 	return nil
 }
 
+// flap stops both links of a channel and re-creates them from the database;
+// switches, mailboxes and circuit maps stay as they are.
+func (r *c08Run) flap(ch int) bool {
+	var (
+		pair       *c08ChanPair
+		sA, sB     *mockServer
+		dA, dB     *mockIteratorDecoder
+		nameA      string
+		nameB      string
+		lA, lB     *channelLink
+		edge       c08Edge
+	)
+	if ch == 0 {
+		pair, sA, sB = r.cl.ab, r.n.aliceServer, r.n.bobServer
+		dA, dB = r.n.aliceOnionDecoder, r.n.bobOnionDecoder
+		nameA, nameB, edge = "alice", "bob first", c08AtoB
+		lA, lB = r.n.aliceChannelLink, r.n.firstBobChannelLink
+	} else {
+		pair, sA, sB = r.cl.bc, r.n.bobServer, r.n.carolServer
+		dA, dB = r.n.bobOnionDecoder, r.n.carolOnionDecoder
+		nameA, nameB, edge = "bob second", "carol", c08BtoC
+		lA, lB = r.n.secondBobChannelLink, r.n.carolChannelLink
+	}
+	if !lA.channel.IsChannelClean() || !lB.channel.IsChannelClean() {
+		r.flapHits++
+	}
+	r.flaps++
+
+	r.stopping.Store(true)
+	sA.htlcSwitch.RemoveLink(pair.chanID)
+	sB.htlcSwitch.RemoveLink(pair.chanID)
+	r.stopping.Store(false)
+	r.tap.reconnect(edge)
+	r.mu.Lock()
+	r.resumed[nameA], r.resumed[nameB] = false, false
+	r.mu.Unlock()
+
+	chA, err := pair.a.restore()
+	if err != nil {
+		r.inconclusive = "flap restore: " + err.Error()
+		return false
+	}
+	chB, err := pair.b.restore()
+	if err != nil {
+		r.inconclusive = "flap restore: " + err.Error()
+		return false
+	}
+	if c08ShiftExposed([4]*lnwallet.LightningChannel{chA, chB, chA, chB}) {
+		r.shiftExposed = true
+	}
+	hooks := func(name string) c08LinkHooks {
+		phase := r.phase
+		return c08LinkHooks{
+			onFailure: func(e LinkFailureError) {
+				if r.stopping.Load() {
+					return
+				}
+				r.noteLinkFail(fmt.Sprintf("phase %d %s (after "+
+					"flap): %v", phase, name, e.Error()))
+			},
+			onActive: func() {
+				r.mu.Lock()
+				r.resumed[name] = true
+				r.mu.Unlock()
+			},
+		}
+	}
+	nA, err := c08CreateLink(&r.n.hopNetwork, sA, sB, chA, dA, hooks(nameA))
+	if err != nil {
+		r.inconclusive = "flap: " + err.Error()
+		return false
+	}
+	nB, err := c08CreateLink(&r.n.hopNetwork, sB, sA, chB, dB, hooks(nameB))
+	if err != nil {
+		r.inconclusive = "flap: " + err.Error()
+		return false
+	}
+	if ch == 0 {
+		r.n.aliceChannelLink, r.n.firstBobChannelLink = nA, nB
+	} else {
+		r.n.secondBobChannelLink, r.n.carolChannelLink = nA, nB
+	}
+
+	until := time.Now().Add(r.deadline)
+	for !nA.EligibleToForward() || !nB.EligibleToForward() {
+		if time.Now().After(until) || len(r.linkFailList()) > 0 {
+			r.inconclusive = "flap: links not eligible"
+			return false
+		}
+		time.Sleep(2 * time.Millisecond)
+	}
+	r.tap.touch()
+
+	return true
+}
+
 // nudge launches one doomed (unknown hash) payment per direction.
 func (r *c08Run) nudge() error {
 	for dir := 0; dir < 2; dir++ {
@@ -711,6 +850,7 @@ type c08Action struct {
 	at   int
 	arm  bool
 	pay  *c08Pay
+	flap *c08FlapPlan
 	tie  int
 }
 
@@ -726,6 +866,13 @@ func (r *c08Run) runPhase(ph int) bool {
 		if hold && p.plan.ResPhase == ph {
 			acts = append(acts, c08Action{at: p.plan.ResAt, pay: p,
 				arm: true, tie: 2*p.ix + 1})
+		}
+	}
+	for i := range r.plan.Flaps {
+		f := &r.plan.Flaps[i]
+		if f.Phase == ph {
+			acts = append(acts, c08Action{at: f.At, flap: f,
+				tie: 1000 + i})
 		}
 	}
 	sort.Slice(acts, func(i, j int) bool {
@@ -745,6 +892,12 @@ func (r *c08Run) runPhase(ph int) bool {
 			a.pay.mu.Lock()
 			a.pay.armed = true
 			a.pay.mu.Unlock()
+			continue
+		}
+		if a.flap != nil {
+			if !r.flap(a.flap.Chan) {
+				return false
+			}
 			continue
 		}
 		if err := r.launch(a.pay); err != nil {
@@ -1312,18 +1465,22 @@ func c08TapOracle(log []c08Event) []string {
 	}
 
 	type addRef struct {
-		hash  [32]byte
-		seq   int
-		phase int
-		id    uint64
+		hash   [32]byte
+		seq    int
+		edge   c08Edge
+		epoch  int // connection epoch of the edge it was sent on
+		id     uint64
+		signed bool // bob sent a commit_sig after it in that epoch
 	}
 	// latest add per (edge, id)
 	var latest [c08NumEdges]map[uint64]addRef
 	for i := range latest {
 		latest[i] = make(map[uint64]addRef)
 	}
+	// current connection epoch per edge (from the markers)
+	var cur [c08NumEdges]int
 	// adds sent by Bob per hash
-	fwd := make(map[[32]byte][]addRef)
+	fwd := make(map[[32]byte][]*addRef)
 	// responses sent by Bob upstream per (edge, id, hash)
 	type respKey struct {
 		edge c08Edge
@@ -1332,7 +1489,7 @@ func c08TapOracle(log []c08Event) []string {
 	}
 	type respSeen struct {
 		settle, failed bool
-		phases         map[int]int
+		epochs         map[int]int
 		firstAt        int
 		signedAt       int // first commit_sig by bob after firstAt
 	}
@@ -1340,17 +1497,30 @@ func c08TapOracle(log []c08Event) []string {
 
 	for i, ev := range log {
 		switch ev.kind {
+		case c08Epoch:
+			cur[ev.edge] = ev.epoch
+
 		case c08Commit:
-			// A commit_sig by bob covers every answer he sent before
-			// it on that edge.
+			// A commit_sig by bob covers every answer and every add
+			// he sent before it on that edge in this connection.
 			for k, rs := range resp {
 				if k.edge == ev.edge && rs.signedAt < 0 {
 					rs.signedAt = i
 				}
 			}
+			for _, refs := range fwd {
+				for _, o := range refs {
+					if o.edge == ev.edge && o.epoch == ev.epoch {
+						o.signed = true
+					}
+				}
+			}
 
 		case c08Add:
-			ref := addRef{ev.hash, ev.seq, ev.phase, ev.id}
+			ref := addRef{
+				hash: ev.hash, seq: ev.seq, edge: ev.edge,
+				epoch: ev.epoch, id: ev.id,
+			}
 			latest[ev.edge][ev.id] = ref
 			if ev.edge != c08BtoA && ev.edge != c08BtoC {
 				continue
@@ -1372,29 +1542,34 @@ func c08TapOracle(log []c08Event) []string {
 					"tap#%d and signed that at tap#%d", i,
 					ev.hash[:4], k.id, rs.firstAt, rs.signedAt)
 			}
-			// Bob forwards: once, retransmitted at most once per
-			// reconnect with the same id.
+			// Bob forwards once. A signed add is retransmitted at
+			// most once per reconnect, with the same id; an add
+			// that was never signed may be sent again after a
+			// reconnect (redelivered from the mailbox).
 			for _, o := range fwd[ev.hash] {
-				if o.phase == ev.phase {
+				switch {
+				case o.epoch == ev.epoch:
 					fail("tap#%d: bob sent the add for %x twice "+
-						"in phase %d (ids %d, %d)", i,
-						ev.hash[:4], ev.phase, o.id, ev.id)
-				} else if o.id != ev.id {
+						"in one connection (ids %d, %d)", i,
+						ev.hash[:4], o.id, ev.id)
+
+				case o.signed && o.id != ev.id:
 					fail("tap#%d: bob forwarded %x again with a "+
-						"new id %d (was %d)", i, ev.hash[:4],
-						ev.id, o.id)
+						"new id %d although the first one (id "+
+						"%d, tap#%d) was signed", i, ev.hash[:4],
+						ev.id, o.id, o.seq)
 				}
 			}
-			fwd[ev.hash] = append(fwd[ev.hash], ref)
+			fwd[ev.hash] = append(fwd[ev.hash], &ref)
 
 		case c08Fulfill, c08Fail:
 			// Only Bob's upstream responses are constrained.
 			if ev.edge != c08BtoA && ev.edge != c08BtoC {
 				continue
 			}
-			inEdge := ev.edge.reverse()   // incoming HTLC's add edge
-			outEdge := c08BtoC            // where Bob forwarded it
-			downEdge := c08CtoB           // where the answer comes from
+			inEdge := ev.edge.reverse() // incoming HTLC's add edge
+			outEdge := c08BtoC          // where Bob forwarded it
+			downEdge := c08CtoB         // where the answer comes from
 			if ev.edge == c08BtoC {
 				outEdge, downEdge = c08BtoA, c08AtoB
 			}
@@ -1408,16 +1583,16 @@ func c08TapOracle(log []c08Event) []string {
 			rs := resp[k]
 			if rs == nil {
 				rs = &respSeen{
-					phases:  make(map[int]int),
+					epochs:  make(map[int]int),
 					firstAt: i, signedAt: -1,
 				}
 				resp[k] = rs
 			}
-			rs.phases[ev.phase]++
-			if rs.phases[ev.phase] > 1 {
+			rs.epochs[ev.epoch]++
+			if rs.epochs[ev.epoch] > 1 {
 				fail("tap#%d: bob answered HTLC %d (%x) on %s twice "+
-					"in phase %d", i, ev.id, in.hash[:4],
-					c08EdgeNames[ev.edge], ev.phase)
+					"in one connection", i, ev.id, in.hash[:4],
+					c08EdgeNames[ev.edge])
 			}
 			if ev.kind == c08Fulfill {
 				rs.settle = true
@@ -1480,27 +1655,16 @@ func c08TapOracle(log []c08Event) []string {
 			if stage == 3 {
 				continue
 			}
-			// (b) never committed: the add was lost with a restart
-			// before bob signed anything after it.
-			if out.phase < ev.phase {
-				signed := false
-				for _, e := range log[out.seq+1 : i] {
-					if e.phase != out.phase {
-						break
-					}
-					if e.edge == outEdge && e.kind == c08Commit {
-						signed = true
-						break
-					}
-				}
-				if !signed {
-					continue
-				}
+			// (b) never committed: bob signed nothing after the add
+			// in its connection, and that connection is gone.
+			if !out.signed && cur[outEdge] > out.epoch {
+				continue
 			}
 			fail("tap#%d: bob failed incoming HTLC %d (%x) back while "+
-				"the outgoing HTLC %d (sent at tap#%d, phase %d) was "+
-				"neither removed (stage %d/3) nor lost uncommitted",
-				i, ev.id, in.hash[:4], out.id, out.seq, out.phase,
+				"the outgoing HTLC %d (sent at tap#%d, signed=%v, "+
+				"connection %d of now %d) was neither removed (stage "+
+				"%d/3) nor lost uncommitted", i, ev.id, in.hash[:4],
+				out.id, out.seq, out.signed, out.epoch, cur[outEdge],
 				stage)
 		}
 	}
@@ -1647,7 +1811,8 @@ func c08RunCase(t *testing.T, plan *c08Plan) *c08Result {
 			}
 		}
 	}
-	res.nontrivial = overlap && (cutsFired > 0 || hits > 0) &&
+	res.nontrivial = overlap && (cutsFired > 0 || hits > 0 ||
+		r.flapHits > 0) &&
 		res.inconclusive == "" && res.known == ""
 
 	lab := []string{
@@ -1655,6 +1820,8 @@ func c08RunCase(t *testing.T, plan *c08Plan) *c08Result {
 		fmt.Sprintf("restarts=%d", plan.Restarts),
 		fmt.Sprintf("cuts_fired=%d", cutsFired),
 		fmt.Sprintf("restarts_hitting_inflight=%d", hits),
+		fmt.Sprintf("flaps=%d", r.flaps),
+		fmt.Sprintf("flaps_hitting_unclean_channel=%d", r.flapHits),
 	}
 	if overlap {
 		lab = append(lab, "overlap")
